@@ -20,3 +20,21 @@ def prod(shape):
     for e in shape:
         p *= e
     return p
+
+
+def arange_array(shape, dt="i32", start=0):
+    n = prod(shape)
+    a = {"shape": list(shape), "data": list(range(start, start + n))}
+    if dt != "i32":
+        a["dt"] = dt
+    return a
+
+
+def pipe(arrays, stages, eval=False, mode=None, **kw):
+    c = {"op": "pipe", "arrays": arrays, "stages": [{"f": f, "in": list(i), "a": a} for f, i, a in stages]}
+    if eval:
+        c["eval"] = True
+    if mode:
+        c["mode"] = mode
+    c.update(kw)
+    return c
